@@ -9,7 +9,7 @@ import json, os, sys, glob
 prev_dir, new_dir, prev_no, new_no, prev_letters, new_letters = sys.argv[1:7]
 NEWKINDS = open(os.path.join(os.path.dirname(__file__), "seed_newkinds_%s.txt" % new_no)).read().strip()
 IDEAS = open(os.path.join(os.path.dirname(__file__), "seed_ideas_%s.txt" % new_no)).read().strip()
-words = {"4": "Four", "5": "Five", "6": "Six", "7": "Seven", "8": "Eight"}
+words = {"4": "Four", "5": "Five", "6": "Six", "7": "Seven", "8": "Eight", "9": "Nine", "10": "Ten"}
 os.makedirs(new_dir, exist_ok=True)
 for f in sorted(glob.glob(prev_dir + "/C*.txt")):
     pid = os.path.basename(f)[:-4]
